@@ -326,6 +326,14 @@ def curThis : SM ν (Option (SVal ν)) := do
   | t :: _ => pure t
   | [] => pure none
 
+/-- the documented method names of the built-in types (manual ch.2/5/6 and the standard library chapter) -/
+def knownMethods : SVal ν → List String
+  | .list _ => ["新增", "添加", "前增", "后增", "左移", "右移", "拼接", "合并", "包含", "寻找", "交换"]
+  | .dict _ => ["读取", "写入", "移除"]
+  | .num _ => ["加", "减", "乘", "除", "自增", "自减", "向下取整", "向上取整"]
+  | .str _ => ["替换", "分隔", "匹配", "匹配开头", "匹配结尾", "取样", "去除空格", "转小写-英文", "转大写-英文", "拼接", "格式化", "转换数值"]
+  | _ => []
+
 def isMutator (m : String) : Bool :=
   ["新增", "添加", "前增", "后增", "左移", "右移", "合并", "交换", "写入", "移除", "自增", "自减"].contains m
 
@@ -630,13 +638,23 @@ def builtinPure : Nat → SVal ν → String → List (SVal ν) → SM ν (SVal 
           | .num v => if m == "加" then NumOps.add acc v else if m == "减" then NumOps.sub acc v else NumOps.mul acc v
           | _ => acc) x))
       else fault 82
+    | .num x, "除", ys =>
+      if ys.all (fun y => match y with | .num _ => true | _ => false) then
+        let rec goDiv : ν → List (SVal ν) → SM ν ν
+          | acc, [] => pure acc
+          | acc, .num v :: rest => if NumOps.isZero v then fault 90 else goDiv (NumOps.div acc v) rest
+          | acc, _ :: rest => goDiv acc rest
+        do let r ← goDiv x ys; pure (.num r)
+      else fault 82
     | .num x, "向下取整", _ => pure (.num (NumOps.floor x))
     | .num x, "向上取整", _ => pure (.num (NumOps.ceil x))
     | .str s, "拼接", ys =>
       if ys.all (fun y => match y with | .str _ => true | _ => false) then
         pure (.str (ys.foldl (fun acc y => match y with | .str t => acc ++ t | _ => acc) s))
       else fault 82
-    | _, _, _ => unspec
+    | _, _, _ =>
+      -- a method the type does not have is an error (46); a documented one not specified here is left open
+      if (knownMethods recv).contains m then unspec else fault 46
 
 /-- mutating methods: (new receiver, result).  The sequence laws of C12. -/
 def builtinMut (recv : SVal ν) (m : String) (args : List (SVal ν)) : SM ν (SVal ν × SVal ν) :=
